@@ -314,6 +314,11 @@ Definition create (ext name : str) (d : pdir) : option playlist * pdir :=
 
 (* save(Playlist(uri -> f, name, tracks)); `target n sfx` computes the new file name when
    the playlist name changed. *)
+(* a new file name that is "", "." or ".." (blank / dot names on a URI without extension):
+   the rename's destination is a directory, Path.rename fails with OSError *)
+Definition bad_target (f : str) : bool :=
+  match f with [] => true | [46] => true | [46; 46] => true | _ => false end.
+
 Definition save_with (target : str -> str -> str) (f : str) (pname : option str) (tracks : list item)
            (d : pdir) : option playlist * pdir :=
   let d1 := pd_write d f (dump_items tracks) in
@@ -322,7 +327,7 @@ Definition save_with (target : str -> str -> str) (f : str) (pname : option str)
       if str_eqb (c :: n) (name_from_path f) then (Some (f, name_from_path f, tracks), d1)
       else
         let f' := target (strip (c :: n)) (suffix f) in
-        if name_too_long f' then (None, d1)
+        if name_too_long f' || bad_target f' then (None, d1)
         else (Some (f', name_from_path f', tracks), pd_rename d1 f f')
   | _ => (Some (f, name_from_path f, tracks), d1)
   end.
